@@ -635,14 +635,29 @@ def judge(ctx, case, obs, mouts):
             ctx.violation("correspondence", "heap:model-error", f"model rejected the call sequence: {m['err']}", case, obs, m)
         else:
             _, where = model_steps(case, obs)
+            # `data.colnames = [...]` re-stores every column of the receiver: afterwards the receiver owns fresh buffers and no
+            # longer shares with the frames it was copied from. The heap model's in-place step keeps the old buffers, so the
+            # SHARING verdict of the model is not consulted for objects downstream of such a step (the mutation verdict is).
+            renamed = set()
+            npool = len(obs["initial_ncols"])
             for ev, w in zip(obs["events"], where):
+                if ev["m"] == "colnames" and "err" not in ev:
+                    renamed.add(ev["recv"])
+                derived = ev["recv"] in renamed or any(a in renamed for a in ev.get("args", []) if a is not None)
+                if "err" not in ev and ev["m"] not in IN_PLACE:
+                    for _ in ev.get("returned", []):
+                        if ev.get("returned_is_recv"):
+                            continue
+                        if derived:
+                            renamed.add(npool)
+                        npool += 1
                 if w is None or ev["m"] in ("group_by", "compare"):
                     continue
                 mo = m[w]
                 if sorted(mo["changed"]) != sorted(x["pool"] for x in ev["mutated"]):
                     ctx.violation("correspondence", f"heap:changed:{ev['m']}", f"step {ev['step']} {ev.get('desc')}: model says objects {mo['changed']} change, observed {[x['pool'] for x in ev['mutated']]}", case, ev, mo)
                 ctx.count("heap:compared-changed")
-                if ev.get("shares_all") and ev["all_nonempty"][0] and ev["returned"]:
+                if ev.get("shares_all") and ev["all_nonempty"][0] and ev["returned"] and not derived and not (renamed & set(mo["shares"])):
                     ctx.count("heap:compared-shares" + (":nonempty" if mo["shares"] else ""))
                     if sorted(mo["shares"]) != sorted(ev["shares_all"][0]):
                         ctx.violation("correspondence", f"heap:shares:{ev['m']}", f"step {ev['step']} {ev.get('desc')}: model says the result shares buffers with {mo['shares']}, observed {ev['shares_all'][0]}", case, ev, mo)
